@@ -37,6 +37,6 @@ that directly depend on it still pass (`cargo test -p <crate> --offline`; the wo
 gmsol-utils, gmsol-store, gmsol-programs, gmsol-sdk, gmsol-solana-utils, gmsol-chainlink-datastreams, gmsol-treasury,
 gmsol-timelock, gmsol-competition, gmsol-liquidity-provider ...; build only what you need, builds are slow and the machine
 is shared; some network-dependent tests (names containing rpc / send_request / get_token_accounts / parse_url) fail even
-without any change — ignore those); (2) the demo fails with the change; (3) after `git stash`/revert of the change the demo
+without any change — ignore those); (2) the demo fails with the change; (3) after reverting ONLY your source change (`git diff -- <src files> > /tmp/mut/<id>/patch.diff; git apply -R /tmp/mut/<id>/patch.diff`; NEVER use `git stash` — the stash is shared by all worktrees of this repository and other agents use it concurrently) the demo
 passes.  Leave the worktree with your change applied and the demo present.  Do not read anything under /verif.
 Reply with a 5-line summary (what you changed, why it slips past the tests, how it manifests).""")
